@@ -5,6 +5,8 @@ package harness
 import (
 	"bytes"
 	"fmt"
+	"os"
+	"path/filepath"
 	"sort"
 	"strings"
 	"testing"
@@ -127,10 +129,13 @@ func TestC18_P_RecursiveImport(t *testing.T) {
 				// the same LinkSystem value re-pointed at another store: the second import must land, completely, in that store
 				st2 := NewStore()
 				ls.StorageWriteOpener, ls.StorageReadOpener = st2.openWrite, st2.openRead
+				// ... after one regular file was rewritten in place (same length, modification time restored): the importer
+				// must read the tree as it is now
+				rewritten := c18RewriteOneFile(root, p)
 				var link2 datamodel.Link
 				must(t, "second import", func() { link2, _, berr = builder.BuildUnixFSRecursive(p, ls) })
 				if berr == nil {
-					if link2 == nil || cidOf(link2) != cidOf(link) {
+					if link2 == nil || (!rewritten && cidOf(link2) != cidOf(link)) {
 						cerr = fmt.Errorf("second import of the same tree returned %v, first %v", link2, link)
 					} else {
 						must(t, "read back second import", func() { cerr = c18Compare(st2, ls, cidOf(link2), root, "") })
@@ -162,7 +167,10 @@ func TestC18_P_RecursiveImport(t *testing.T) {
 				for name := range d.Kids {
 					est += len(name) + 36
 				}
-				rn, _ := loadReified(ls, cidOf(link), "unixfs")
+				rn, rerr := loadReified(st.LinkSystem(), cidOf(link), "unixfs")
+				if rerr != nil {
+					t.Fatalf("harness: %v", rerr)
+				}
 				v, _ := rn.LookupByString("bigdir")
 				dc, _ := linkOf(v)
 				bi, _ := st.Decode(dc)
@@ -275,4 +283,58 @@ func TestC18_R_AutoShardedDeepNames(t *testing.T) {
 			t.Fatal(err)
 		}
 	}
+}
+
+// c18RewriteOneFile flips the bytes of the first non-empty regular file it finds (and of the description, including hard links
+// to it), keeping length and modification time.
+func c18RewriteOneFile(n *fsNode, p string) bool {
+	if n.Kind != fsDir {
+		return false
+	}
+	for _, name := range sortedAll(n) {
+		k := n.Kids[name]
+		if k.Kind == fsFile && k.LinkTo == "" && len(k.Data) > 0 {
+			fp := filepath.Join(p, name)
+			info, err := os.Lstat(fp)
+			if err != nil {
+				return false
+			}
+			nd := make([]byte, len(k.Data))
+			for i, b := range k.Data {
+				nd[i] = b ^ 0x5a
+			}
+			f, err := os.OpenFile(fp, os.O_WRONLY, 0)
+			if err != nil {
+				return false
+			}
+			_, werr := f.WriteAt(nd, 0)
+			f.Close()
+			if werr != nil {
+				return false
+			}
+			_ = os.Chtimes(fp, info.ModTime(), info.ModTime())
+			k.Data = nd
+			for _, other := range n.Kids {
+				if other.LinkTo == name {
+					other.Data = nd
+				}
+			}
+			return true
+		}
+	}
+	for _, name := range sortedAll(n) {
+		if c18RewriteOneFile(n.Kids[name], filepath.Join(p, name)) {
+			return true
+		}
+	}
+	return false
+}
+
+func sortedAll(n *fsNode) []string {
+	var out []string
+	for k := range n.Kids {
+		out = append(out, k)
+	}
+	sort.Strings(out)
+	return out
 }
